@@ -1956,7 +1956,7 @@ rrul_fill_Hly(echs_instant_t *restrict tgt, size_t nti, rrulsp_t rr)
 				     if (++m > 12U) {
 					     y++;
 					     m = 1U;
-					     yd -= maxy - 1;
+					     yd -= maxy;
 					     maxy = (y % 4U) ? 365 : 366;
 				     }
 				     maxd = __get_ndom(y, m);
@@ -1984,7 +1984,7 @@ rrul_fill_Hly(echs_instant_t *restrict tgt, size_t nti, rrulsp_t rr)
 			for (bitint_iter_t doyi = 0UL;
 			     (tmp = bi383_next(&doyi, &rr->doy), doyi);) {
 				if (tmp > 0 && (unsigned int)tmp == yd ||
-				    tmp < 0 && maxy - ++tmp == yd) {
+				    tmp < 0 && maxy + ++tmp == yd) {
 					/* that's clearly a match */
 					goto bang;
 				}
